@@ -22,7 +22,7 @@
 (***************************************************************************)
 EXTENDS PoolOps
 
-CONSTANTS Dialogs, Backs, MethodExcluded, PurgeEvictsLive
+CONSTANTS Dialogs, Backs, MethodExcluded, PurgeEvictsLive, ExpiresIgnored
 
 Methods == {"ACK", "BYE", "INVITE", "UPDATE", "INFO", "NOTIFY", "SUBSCRIBE"}
 
@@ -31,9 +31,10 @@ VARIABLES idx,       \* rotation index of the pool (membership fixed in this mod
           inv,       \* history: who received the initial INVITE of a dialog (it is the one that answers)
           answered,  \* history (declarative): Dialog -|-> backend that answered / whose SUBSCRIBE was answered
           last,      \* the last dispatch: [dlg, method, tgt, origin]
-          due        \* more than a dialog timeout has passed since the pin table was last purged
+          due,       \* more than a dialog timeout has passed since the pin table was last purged
+          long       \* dialogs established by a response whose Expires exceeds the dialog timeout
 
-vars == <<idx, pins, inv, answered, last, due>>
+vars == <<idx, pins, inv, answered, last, due, long>>
 
 CONSTANT BackSeq     \* Backs as a sequence (registration order)
 
@@ -41,10 +42,16 @@ Put(f, k, v) == [x \in DOMAIN f \cup {k} |-> IF x = k THEN v ELSE f[x]]
 Drop(f, k) == [x \in DOMAIN f \ {k} |-> f[x]]
 NoDispatch == [dlg |-> "-", method |-> "-", tgt |-> "-", origin |-> "-"]
 
-Init == idx = 0 /\ pins = <<>> /\ inv = <<>> /\ answered = <<>> /\ last = NoDispatch /\ due = FALSE
+Init == idx = 0 /\ pins = <<>> /\ inv = <<>> /\ answered = <<>> /\ last = NoDispatch /\ due = FALSE /\ long = {}
 \* storing pin k runs the purge when one is due
 AfterPurge(p, k) == IF due /\ PurgeEvictsLive THEN [x \in {k} |-> p[x]] ELSE p
-UptimePasses == due' = TRUE /\ UNCHANGED <<idx, pins, inv, answered, last>>
+UptimePasses == due' = TRUE /\ UNCHANGED <<idx, pins, inv, answered, last, long>>
+Restrict(f, S) == [x \in DOMAIN f \cap S |-> f[x]]
+\* one dialog timeout passes (less than the Expires of the long dialogs): what the code still honours, what the property still claims
+TimeoutPasses == /\ pins' = Restrict(pins, IF ExpiresIgnored THEN {} ELSE long)
+                 /\ answered' = Restrict(answered, long)
+                 /\ due' = TRUE
+                 /\ UNCHANGED <<idx, inv, last, long>>
 
 PoolPick == SeqDispatch(BackSeq, idx)
 
@@ -53,20 +60,24 @@ Initial(d) == /\ d \notin DOMAIN inv
               /\ idx' = PoolPick.idx
               /\ inv' = Put(inv, d, PoolPick.tgt)
               /\ last' = [dlg |-> d, method |-> "INVITE0", tgt |-> PoolPick.tgt, origin |-> "pool"]
-              /\ UNCHANGED <<pins, answered, due>>
+              /\ UNCHANGED <<pins, answered, due, long>>
 Unrelated == /\ idx' = PoolPick.idx
              /\ last' = [dlg |-> "-", method |-> "OPTIONS", tgt |-> PoolPick.tgt, origin |-> "pool"]
-             /\ UNCHANGED <<pins, inv, answered, due>>
+             /\ UNCHANGED <<pins, inv, answered, due, long>>
 
 \* the backend that holds the dialog answers the INVITE (or a re-INVITE) with both tags
-Answer(d) == /\ d \in DOMAIN inv
+Answer(d, lg) ==
+             /\ d \in DOMAIN inv
+             /\ long' = (IF lg THEN long \cup {d} ELSE long \ {d})
              /\ pins' = AfterPurge(Put(pins, d, inv[d]), d) /\ due' = FALSE
              /\ answered' = IF d \in DOMAIN answered THEN answered ELSE Put(answered, d, inv[d])
              /\ last' = NoDispatch
              /\ UNCHANGED <<idx, inv>>
 
 \* a SUBSCRIBE issued by backend b is answered from outside: the response passes towards b
-SubscribeAnswered(d, b) == /\ d \notin DOMAIN answered /\ d \notin DOMAIN inv
+SubscribeAnswered(d, b, lg) ==
+                           /\ d \notin DOMAIN answered /\ d \notin DOMAIN inv
+                           /\ long' = (IF lg THEN long \cup {d} ELSE long \ {d})
                            /\ pins' = AfterPurge(Put(pins, d, b), d) /\ due' = FALSE
                            /\ answered' = Put(answered, d, b)
                            /\ inv' = Put(inv, d, b)
@@ -83,7 +94,7 @@ InDialog(d, m) ==
           /\ last' = [dlg |-> d, method |-> m, tgt |-> tgt, origin |-> IF hit THEN "pin" ELSE "pool"]
           /\ inv' = IF m = "INVITE" THEN Put(inv, d, tgt) ELSE inv      \* whoever gets the re-INVITE answers it
           /\ pins' = pins
-          /\ UNCHANGED <<answered, due>>
+          /\ UNCHANGED <<answered, due, long>>
 
 \* NOTIFY with Subscription-State: terminated - routed like any in-dialog request, then the pin is dissolved
 NotifyTerminated(d) ==
@@ -94,6 +105,7 @@ NotifyTerminated(d) ==
           /\ last' = [dlg |-> d, method |-> "NOTIFY", tgt |-> tgt, origin |-> IF hit THEN "pin" ELSE "pool"]
     /\ pins' = Drop(pins, d)
     /\ answered' = Drop(answered, d)
+    /\ long' = long \ {d}
     /\ UNCHANGED <<inv, due>>
 
 \* the backend answers a BYE of the dialog (any status)
@@ -101,12 +113,14 @@ ByeAnswered(d) == /\ d \in DOMAIN inv
                   /\ pins' = Drop(pins, d)
                   /\ answered' = Drop(answered, d)
                   /\ last' = NoDispatch
+                  /\ long' = long \ {d}
                   /\ UNCHANGED <<idx, inv, due>>
 
-Next == \/ \E d \in Dialogs : Initial(d) \/ Answer(d) \/ ByeAnswered(d) \/ NotifyTerminated(d)
+Next == \/ \E d \in Dialogs : Initial(d) \/ ByeAnswered(d) \/ NotifyTerminated(d)
+        \/ \E d \in Dialogs, lg \in BOOLEAN : Answer(d, lg)
         \/ \E d \in Dialogs, m \in Methods : InDialog(d, m)
-        \/ \E d \in Dialogs, b \in Backs : SubscribeAnswered(d, b)
-        \/ Unrelated \/ UptimePasses
+        \/ \E d \in Dialogs, b \in Backs, lg \in BOOLEAN : SubscribeAnswered(d, b, lg)
+        \/ Unrelated \/ UptimePasses \/ TimeoutPasses
 Spec == Init /\ [][Next]_vars
 
 ---------------------------------------------------------------------------
